@@ -134,7 +134,7 @@ def run(pid, tier, seed, work, log, replay=None):
         scen = [json.load(open(replay))]
     else:
         rng = random.Random(seed * 104729 + (6 if pid == 'C06' else 7))
-        n = {'quick': 32 if pid == 'C06' else 20, 'thorough': 600}[tier]
+        n = {'quick': 32 if pid == 'C06' else 20, 'thorough': 600 if pid == 'C06' else 300}[tier]
         scen = [gen_crash(rng, '%s-%d-%04d' % (pid.lower(), seed, i), pid) for i in range(n)]
         if pid == 'C07':
             tpl = crash_gc_templates()
@@ -147,7 +147,7 @@ def run(pid, tier, seed, work, log, replay=None):
                 if f.endswith('.json'):
                     scen.append(json.load(open(os.path.join(fixed, f))))
     tb = V.build_harness(work)
-    traces, crashed = V.run_scenarios(tb, scen, work, timeout=1500)
+    traces, crashed = V.run_scenarios(tb, scen, work, timeout=1500 if tier == 'quick' else 10000)   # a GC scenario = dozens of child recoveries
     res['violations'] += V.crash_verdicts(crashed, pid)
     allev, per = [], {}
     for s in scen:
